@@ -1,4 +1,122 @@
-(* Case runner and spec checker (T3) for C05 — stub. *)
-From WI Require Import Lib.Base Lib.Info Model.Routes.
-Definition run_C05 (op : bytes) (input : arg) : arg := AL [].
-Definition check_C05 (op : bytes) (input impl : arg) : arg := AL [].
+(* Case runner and spec checker (T3) for C05. *)
+From WI Require Import Lib.Base Lib.Info Lib.Strings Model.Base64 Model.Dispatch Model.Render Model.Pem Model.Routes.
+Open Scope N_scope.
+
+Definition result_of_obs5 (a : arg) : result info :=
+  match a with
+  | AL [AZ 0%Z; i] => Ok (info_of_arg i)
+  | AL [AZ 2%Z] => Panic "oracle"
+  | _ => Err "oracle"
+  end.
+
+(* ---- oracles: what the real library code answered for the byte strings of this case ---- *)
+(* one entry: (bytes (r0 .. r8) generic); r0..r6 the parsers of parseDERData's trial list,
+   r7 parseECParameters, r8 parseOpenSSHPrivateKey *)
+Definition find_oracle (os : list arg) (x : bytes) : option arg :=
+  find (fun o => bytes_eqb (arg_bytes (arg_nth 0 o)) x) os.
+
+Definition sentinel (s : string) : info := Info (bytes_of_string s) [] [].
+Arguments sentinel s%string.
+
+Definition oracle_result (os : list arg) (i : nat) (x : bytes) : result info :=
+  match find_oracle os x with
+  | Some o => result_of_obs5 (arg_nth i (arg_nth 1 o))
+  | None => Err "no oracle"
+  end.
+
+Definition lib_of (os : list arg) : lib :=
+  mklib (oracle_result os 0)
+        (fun i x => match oracle_result os i x with
+                    | Ok inf => inf
+                    | _ => sentinel "MODEL: schema accepted what the implementation's parser rejected (or no oracle)"
+                    end)
+        (fun x => match find_oracle os x with
+                  | Some o => match result_of_obs5 (arg_nth 2 o) with
+                              | Ok i => i
+                              | _ => sentinel "MODEL: generic dump failed"
+                              end
+                  | None => sentinel "MODEL: no oracle for the generic dump"
+                  end)
+        (oracle_result os 7)
+        (oracle_result os 8).
+
+Definition blocks_of (a : arg) : list (bytes * bytes) :=
+  map (fun b => (arg_bytes (arg_nth 0 b), arg_bytes (arg_nth 1 b))) (arg_list a).
+
+(* per-row oracle of the other formats' sniffers and parsers (as in C07) *)
+Fixpoint lookup_row {A} (key : row -> bytes) (n : bytes) (t : list row) (vals : list A) (d : A) : A :=
+  match t, vals with
+  | r :: t', v :: vals' => if bytes_eqb (key r) n then v else lookup_row key n t' vals' d
+  | _, _ => d
+  end.
+Definition sniff_rows (rows : list arg) (n data : bytes) : bool :=
+  arg_bool (arg_nth 0 (lookup_row r_sniffer n table rows (AL []))).
+Definition parse_rows (rows : list arg) (n data : bytes) : result info :=
+  result_of_obs5 (arg_nth 1 (lookup_row r_parser n table rows (AL []))).
+
+Definition obs_rbytes (r : result bytes) : list arg :=
+  match r with Ok b => [AB b; AZ 0] | _ => [AB []; AZ 2] end.
+
+Definition run_C05 (op : bytes) (input : arg) : arg :=
+  if bytes_eqb op (bs "der") then
+    let d := arg_bytes (arg_nth 0 input) in
+    let L := lib_of [arg_nth 1 input] in
+    AL [AL (map (fun i => ok_arg (is_ok (parse_kind L i d))) (seq 0 7));
+        obs_result arg_of_info (route_der L d);
+        obs_result arg_of_info (asn1_file L d)]
+  else if bytes_eqb op (bs "sniff") then
+    let d := arg_bytes (arg_nth 0 input) in
+    (* fourth slot: the necessary condition assumed of the UUID sniffer holds for its recorded verdict *)
+    AL [ok_arg (is_asn1 d); ok_arg (is_b64_asn1 d); ok_arg (is_mixed_pem d);
+        ok_arg (negb (arg_bool (arg_nth 1 input)) || uuid_possible d)]
+  else if bytes_eqb op (bs "pemblock") then
+    let L := lib_of [arg_nth 2 input] in
+    obs_result arg_of_info (parse_pem_block L (arg_bytes (arg_nth 0 input)) (arg_bytes (arg_nth 1 input)))
+  else if bytes_eqb op (bs "pemf") then
+    let L := lib_of (arg_list (arg_nth 1 input)) in
+    (* the blocks come from the model of pem.Decode, not from the recorded ones (compared by op pemdec) *)
+    obs_result arg_of_info (pem_file L (pem_blocks_of (arg_bytes (arg_nth 0 input))))
+  else if bytes_eqb op (bs "pemdec") then
+    AL (map (fun b => AL [AB (fst b); AB (snd b)]) (pem_blocks_of (arg_bytes (arg_nth 0 input))))
+  else if bytes_eqb op (bs "insp") then
+    let name := arg_bytes (arg_nth 0 input) in
+    let data := arg_bytes (arg_nth 1 input) in
+    let rows := arg_list (arg_nth 2 input) in
+    let L := lib_of (arg_list (arg_nth 3 input)) in
+    obs_result arg_of_info
+      (inspect_file L pem_blocks_of (sniff_rows rows) (parse_rows rows) name data)
+  else if bytes_eqb op (bs "cli") then
+    (* what the three invocations print, given the tree that Inspect returns for this content *)
+    let path := arg_bytes (arg_nth 0 input) in
+    let i := info_of_arg (arg_nth 2 input) in
+    AL [AB (report path i); AZ 0; AB (print_info i 0); AZ 0; AB (print_info i 0); AZ 0]
+  else AL [].
+
+(* ---- the property itself, on what the implementation printed; independent of the model:
+   every presentation of an object must be described exactly as its raw DER is ---- *)
+Definition check_C05 (op : bytes) (input impl : arg) : arg :=
+  if bytes_eqb op (bs "insp") then
+    if arg_bool (arg_nth 6 input) then
+      match arg_nth 5 input with
+      | AL [AZ 0%Z; r] =>
+          match impl with
+          | AL [AZ 0%Z; i] =>
+              if arg_eqb i r then AL []
+              else AS "this presentation of the object is described differently from its raw DER"
+          | _ => AS "inspection of this presentation failed (error or panic)"
+          end
+      | _ => AS "inspection of the raw DER failed (error or panic)"
+      end
+    else AL []
+  else if bytes_eqb op (bs "cli") then
+    let path := arg_bytes (arg_nth 0 input) in
+    let out_file := arg_bytes (arg_nth 0 impl) in
+    let out_dash := arg_bytes (arg_nth 2 impl) in
+    let out_none := arg_bytes (arg_nth 4 impl) in
+    if negb (Z.eqb (arg_Z (arg_nth 1 impl)) 0 && Z.eqb (arg_Z (arg_nth 3 impl)) 0 && Z.eqb (arg_Z (arg_nth 5 impl)) 0)
+    then AS "non-zero exit status"
+    else if negb (bytes_eqb out_dash out_none) then AS "'decipher -' and 'decipher' without arguments print different reports for the same input"
+    else if negb (bytes_eqb out_file (path ++ [58; 32] ++ out_dash))
+    then AS "report for a file is not the path prefix followed by the report for the same bytes on standard input"
+    else AL []
+  else AL [].
